@@ -388,3 +388,107 @@ ALGO_ASSUMPTIONS = [
     "integer weights only: path sums are exactly representable (the rounding-error clause of C12 is not covered)",
     "neighbourhood scans are observed through a derived graph type whose getOutNeighbours counts calls",
 ]
+
+
+# ------------------------------------------------------------------ file codecs
+def _unopenable_file(pid):
+    d = vf.fresh_dir(os.path.join(vf.RUN, pid, "files"))
+    p = os.path.join(d, "unopenable.ndjson")
+    with open(p, "w") as f:
+        f.write(json.dumps({"k": "unopenable"}) + "\n")
+    return p
+
+
+def c13(pid, tier, seed):
+    q = tier == "quick"
+    T = algo.TextCases
+    sets = []
+    for d in (True, False):
+        nm = "d" if d else "u"
+        sets += [T("t-rt-%s-none" % nm, d, "none", "roundtrip", maxn=3, maxedges=3 if q else 4),
+                 T("t-rt-%s-string" % nm, d, "string", "roundtrip", maxn=3, maxedges=2 if q else 3),
+                 T("t-rt-%s-int" % nm, d, "int", "roundtrip", maxn=3 if not d else 2, maxedges=2 if q else 3)]
+    sets += [T("t-load1-full", True, "string", "load", maxedges=1, lineset="full"),
+             T("t-load1-full-u-none", False, "none", "load", maxedges=1, lineset="full"),
+             T("t-load2-small", False, "int", "load", maxedges=2, lineset="small" if not q else "tiny"),
+             T("t-named3", True, "string", "named", maxedges=3 if not q else 2, lineset="tiny"),
+             T("t-named1-full", False, "none", "named", maxedges=1, lineset="full")]
+    if not q:
+        sets += [T("t-load3-tiny", True, "string", "load", maxedges=3, lineset="tiny"),
+                 T("t-named2-small", True, "int", "named", maxedges=2, lineset="small")]
+    io = vf.build_ioh("o1")
+    results, violations = run_all(pid, sets, [], seed, io, validate=False)
+    return violations, coverage_of(results), IO_ASSUMPTIONS
+
+
+def c14(pid, tier, seed):
+    q = tier == "quick"
+    B = algo.BinCases
+    sets = []
+    for d in (True, False):
+        nm = "d" if d else "u"
+        sets += [B("b-rt-%s-w0" % nm, d, 0, "roundtrip", maxedges=3 if q else 4),
+                 B("b-rt-%s-w1" % nm, d, 1, "roundtrip", labels=(0, 255)),
+                 B("b-rt-%s-w2" % nm, d, 2, "roundtrip", labels=(0, 258), maxedges=2 if q else 3),
+                 B("b-rt-%s-w4" % nm, d, 4, "roundtrip", labels=(1, 16909060)),
+                 B("b-rt-%s-w8" % nm, d, 8, "roundtrip", labels=(2, 16909060)),
+                 B("b-rec-%s-w2" % nm, d, 2, "records", maxedges=3),
+                 B("b-rec-%s-w0" % nm, d, 0, "records", maxedges=3)]
+    io = vf.build_ioh("o1")
+    results, violations = run_all(pid, sets, [("unopenable", _unopenable_file(pid), None)], seed, io, validate=False)
+    return violations, coverage_of(results), IO_ASSUMPTIONS
+
+
+def c15(pid, tier, seed):
+    q = tier == "quick"
+    B, T = algo.BinCases, algo.TextCases
+    def sets(suffix=""):
+        out = []
+        for d in (True, False):
+            nm = ("d" if d else "u") + suffix
+            out += [B("b-cut-%s-w0" % nm, d, 0, "truncate", maxedges=2 if q else 3),
+                    B("b-cut-%s-w2" % nm, d, 2, "truncate", maxedges=2),
+                    B("b-cut-%s-w4" % nm, d, 4, "truncate", labels=(16909060,), maxedges=2),
+                    T("t-mal-%s-string" % nm, d, "string", "malformed", maxedges=2 if q else 3),
+                    T("t-mal-%s-none" % nm, d, "none", "malformed", maxedges=2)]
+            if not q:
+                out += [B("b-cut-%s-w8" % nm, d, 8, "truncate", labels=(258,), maxedges=2),
+                        B("b-cut-%s-w1" % nm, d, 1, "truncate", labels=(7,), maxedges=3),
+                        T("t-mal-%s-int" % nm, d, "int", "malformed", maxedges=2)]
+        return out
+    io = vf.build_ioh("o1")
+    results, violations = run_all(pid, sets(), [], seed, io, validate=False)
+    ioa = vf.build_ioh("asan")
+    s2 = sets("-asan")
+    if q:
+        s2 = [x for x in s2 if "w4" not in x.name]
+    results2, v2 = run_all(pid, s2, [], seed, ioa, validate=False)
+    violations += v2
+    cov = coverage_of(results + results2)
+    inside = sum((r.get("ah") or {}).get("cut_inside_record", 0) for r in results)
+    boundary = sum((r.get("ah") or {}).get("cut_at_record_boundary", 0) for r in results)
+    mal = sum((r.get("ah") or {}).get("malformed_text_files", 0) for r in results)
+    cov.update({
+        "evaluations": cov["cases_executed_on_impl"],
+        "distinct_nontrivial": inside + mal,
+        "rule": "binary: BinFormat.tla models the writer as a process appending one byte per step, so every reachable "
+                "state is a crash point - every byte offset of every valid file within the bounds (all shapes on <=3 "
+                "vertices with <=2-3 edges, label widths 0/2/4 (1/8 thorough), directed and undirected); non-trivial = "
+                "cuts strictly inside a record (the loader must return exactly the complete records or throw); text: every "
+                "file of <=2-3 lines over well-formed lines and the malformed-line alphabet (blank, one token, non-numeric, "
+                "negative, overflowing, stray bytes) with at least one malformed line; each load runs in a forked child with "
+                "an alarm (and an address-space limit), in a plain and an ASan+UBSan build: a crash, sanitizer report, "
+                "timeout or non-std exception is a violation",
+        "cut_inside_record": inside, "cut_at_record_boundary": boundary, "malformed_text_files": mal,
+        "builds": ["g++ -O1", "clang++ -O1 -fsanitize=address,undefined"],
+    })
+    return violations, cov, IO_ASSUMPTIONS + ["vertex indices in generated files are small (< 11), as the property allows"]
+
+
+IO_ASSUMPTIONS = [
+    "files are enumerated exhaustively by TLC only within the stated bounds (<=3 vertices, <=2-4 edges / lines, small "
+    "alphabets of labels, tokens and whitespace runs)",
+    "label types: NoLabel, uint8/16/32/64 byte-exact against the specification's little-endian records; int32, float and "
+    "double by equality round trip and file length only; text codecs none / std::string (identity) / int (to_string, stoi)",
+    "big-endian hosts are covered only at the model level (BinFormat!DiskIsLE); this host is little-endian",
+]
